@@ -515,6 +515,11 @@ impl Session {
             // *Request* carries no sequence number, so the responder correctly
             // expects our first data segment at seq 0.)
             self.recv_window.ack_seq = 0;
+            // ... and like any other received segment it has to be acknowledged: the responder
+            // counts it against its send window (and runs its idle timer) until we do.
+            self.recv_window.ack_level = 1;
+            self.recv_window.level = window_size - 1;
+            self.recv_window.received_at = Instant::now();
         }
     }
 
